@@ -23,6 +23,7 @@
      "s' is a respelling of s" -- they spell trees a, a' with Respell a a'        (Norm.RespellText). *)
 From Coq Require Import List NArith ZArith Permutation.
 Require Import Base Mol Canon Text Token Parse Pipeline MolProofs SameMol CanonProofs AstOf TotalProofs.
+Require ParamsSpec.   (* regenerated source constants still match what the model hard-codes *)
 Require ParseProofs Respell RoundTrip2 RefCanon Norm.
 Import ListNotations.
 
